@@ -142,6 +142,8 @@ class Ref:
 def ctx_view_for(spec: Spec, i: int, context: Optional[dict]):
     if context is None:
         context = {}
+    if context.get('_noview'):
+        return ()
     if spec.types[i] == 'TF':
         keep = f'k{spec.labels[i] % 2}'
         context = {k: v for k, v in context.items() if k == keep or k.startswith('_')}
